@@ -305,11 +305,12 @@ func runUDP(c *UDPCase) (fail *failure, class string, nt bool, sig string) {
 	}
 	mode := c.Mode
 	switch mode {
-	case "idle", "eof", "open", "race":
+	case "idle", "eof", "open", "race", "listen":
 	default:
 		mode = "idle"
 	}
-	real := c.Real && mode != "eof"
+	listen := mode == "listen" // UDP side = real mapping.UDPVirtualConn (vconn_test.go)
+	real := c.Real && mode != "eof" && !listen
 	if real && (!realOK() || !realFits(c.Records) || !realFits(c.Dgrams)) {
 		real = false
 	}
@@ -318,6 +319,17 @@ func runUDP(c *UDPCase) (fail *failure, class string, nt bool, sig string) {
 		dgrams = nil
 	}
 	udpOpenAtEnd := mode != "eof"
+	var lenvp *listenEnv
+	if listen {
+		if len(dgrams) == 0 {
+			dgrams = []DG{{Len: 9, Seed: 12}}
+		}
+		lenvp = getListenEnv()
+		if lenvp == nil || !realFits(c.Records) || !realFits(dgrams) {
+			vkit.Skipped(1)
+			return nil, "", false, ""
+		}
+	}
 	spinKey := keySpin + "/cut-" + cc + "/" + end
 	// regions of listed findings already confirmed three times are no longer generated
 	if (mid && excludedRegion(spinKey)) || (udpOpenAtEnd && excludedRegion(keyWaitsUDP)) {
@@ -331,15 +343,15 @@ func runUDP(c *UDPCase) (fail *failure, class string, nt bool, sig string) {
 			want = append(want, c.Records[i].bytes())
 		}
 	}
-	gated := mode == "eof" || mode == "open"
+	gated := mode == "eof" || mode == "open" || listen
 
 	baseline, _ := relayGoroutines()
 	h := newHub()
 	ts := &tunSide{total: cut, gate: make(chan struct{}), h: h}
-	ts.cr = vkit.ChunkReader{Data: stream[:cut], Chunks: c.Chunks, Fixed: c.Fixed, EOFWithLast: c.EOFWithLast}
+	ts.cr = vkit.ChunkReader{Data: stream[:cut], Chunks: c.Chunks, Fixed: c.Fixed, EOFWithLast: c.EOFWithLast && !listen}
 	// when the end travels with the last bytes and must not arrive before the relay has
 	// forwarded the UDP side's datagrams, the whole tunnel stream is held back until then
-	ts.holdAll = gated && c.EOFWithLast
+	ts.holdAll = gated && c.EOFWithLast && !listen
 	if end != "eof" {
 		ts.endErr = errOfKind(end, errInjected) // "err" is the generic kind
 		ts.cr.Err = ts.endErr
@@ -349,7 +361,20 @@ func runUDP(c *UDPCase) (fail *failure, class string, nt bool, sig string) {
 	var udpSide io.ReadWriteCloser
 	var ps *pktSide
 	var app, rs *net.UDPConn
-	if real {
+	var vc io.ReadWriteCloser
+	var ard *appReader
+	if listen {
+		// the first datagram makes the adapter create the virtual connection
+		app, vc = lenvp.session(dgrams[0].bytes())
+		if vc == nil {
+			vkit.Skipped(1)
+			return nil, "", false, ""
+		}
+		defer app.Close()
+		defer vc.Close()
+		ard = startAppReader(h, app)
+		udpSide = vc
+	} else if real {
 		var err error
 		app, err = net.ListenUDP("udp4", &net.UDPAddr{IP: net.IPv4(127, 0, 0, 1)})
 		if err == nil {
@@ -372,9 +397,13 @@ func runUDP(c *UDPCase) (fail *failure, class string, nt bool, sig string) {
 		udpSide = ps
 	}
 	feed := func() {
-		for _, d := range dgrams {
+		for i, d := range dgrams {
 			b := d.bytes()
-			if real {
+			if listen {
+				if i > 0 {
+					app.WriteToUDP(b, lenvp.dst)
+				}
+			} else if real {
 				app.WriteToUDP(b, rs.LocalAddr().(*net.UDPAddr))
 			} else {
 				h.do(func() { ps.q = append(ps.q, b) })
@@ -403,6 +432,8 @@ func runUDP(c *UDPCase) (fail *failure, class string, nt bool, sig string) {
 		if ps != nil {
 			h.do(func() { ps.frozen = true })
 			ps.Close()
+		} else if vc != nil {
+			vc.Close()
 		} else {
 			rs.Close()
 		}
@@ -439,6 +470,11 @@ func runUDP(c *UDPCase) (fail *failure, class string, nt bool, sig string) {
 				len(dgrams), wantOut, ts.capturedLen(), B, map[bool]string{true: "ended", false: "open"}[mode == "eof"]), "", false, ""
 		}
 	}
+	if listen {
+		// UDPVirtualConn.Close drops what its writeLoop has not sent yet: the tunnel may only
+		// end once the application has received the datagrams (a loss shows below)
+		h.wait(B, func() bool { return len(ard.got) >= len(want) || returned })
+	}
 	ts.release()
 	t0 := time.Now()
 	if !h.wait(B, func() bool { return returned }) {
@@ -461,7 +497,11 @@ func runUDP(c *UDPCase) (fail *failure, class string, nt bool, sig string) {
 	// --- tunnel -> UDP
 	var got [][]byte
 	lossKeyTiming := false
-	if real {
+	if listen {
+		lossKeyTiming = true
+		time.Sleep(2 * time.Millisecond) // room for a datagram too many
+		h.do(func() { got = ard.got })
+	} else if real {
 		lossKeyTiming = true
 		buf := make([]byte, 65536)
 		for len(got) <= len(want) {
@@ -481,7 +521,11 @@ func runUDP(c *UDPCase) (fail *failure, class string, nt bool, sig string) {
 	}
 	for i := 0; i < len(got) && i < len(want); i++ {
 		if !bytes.Equal(got[i], want[i]) {
-			return failf("C12/udp/tunnel-to-udp/datagram-altered", "datagram %d: got %d bytes, record has %d (first difference at %d); stream of %d records cut at %d (%s)",
+			key := "C12/udp/tunnel-to-udp/datagram-altered"
+			if listen {
+				key += "/listen-side-virtual-conn"
+			}
+			return failf(key, "datagram %d: got %d bytes, record has %d (first difference at %d); stream of %d records cut at %d (%s)",
 				i, len(got[i]), len(want[i]), firstDiff(got[i], want[i]), len(c.Records), cut, cc), "", false, ""
 		}
 	}
@@ -545,7 +589,9 @@ func runUDP(c *UDPCase) (fail *failure, class string, nt bool, sig string) {
 	}
 
 	class = "udp:" + mode + "/cut-" + cc + "/" + end
-	if real {
+	if listen {
+		class = "udp:listen-side-virtual-conn" + "/cut-" + cc + "/" + end
+	} else if real {
 		class = "udp:real-socket+" + mode + "/cut-" + cc + "/" + end
 	}
 	nt = mid || (len(dec) > 0 && len(want) > 0)
